@@ -563,6 +563,73 @@ func inCeil(ex *Exec, fn *ssa.Function, args []Value) (Value, bool) {
 func inTrunc(ex *Exec, fn *ssa.Function, args []Value) (Value, bool) {
 	return ex.tc.FUn(OFRoundRTZ, args[0].(*Term)), true
 }
+func inSignbit(ex *Exec, fn *ssa.Function, args []Value) (Value, bool) {
+	x := args[0].(*Term)
+	if x.op == OConst {
+		return ex.tc.Bool(x.cval>>63 != 0), true
+	}
+	// NaN sign is not tracked (single NaN): treated as positive
+	return ex.tc.FUn(OFIsNeg, x), true
+}
+
+// math.Max / math.Min with Go's special cases (Inf, NaN, signed zeros)
+func inFMax(ex *Exec, fn *ssa.Function, args []Value) (Value, bool) {
+	tc := ex.tc
+	x, y := args[0].(*Term), args[1].(*Term)
+	nan := tc.Or(tc.FUn(OFIsNaN, x), tc.FUn(OFIsNaN, y))
+	bothZero := tc.And(tc.FCmp(OFEq, x, tc.F64(0)), tc.FCmp(OFEq, y, tc.F64(0)))
+	zeroPick := tc.Ite(tc.FUn(OFIsNeg, x), y, x)
+	gen := tc.Ite(tc.FCmp(OFLt, y, x), x, y)
+	return tc.Ite(nan, tc.F64(math.NaN()), tc.Ite(bothZero, zeroPick, gen)), true
+}
+func inFMin(ex *Exec, fn *ssa.Function, args []Value) (Value, bool) {
+	tc := ex.tc
+	x, y := args[0].(*Term), args[1].(*Term)
+	nan := tc.Or(tc.FUn(OFIsNaN, x), tc.FUn(OFIsNaN, y))
+	bothZero := tc.And(tc.FCmp(OFEq, x, tc.F64(0)), tc.FCmp(OFEq, y, tc.F64(0)))
+	zeroPick := tc.Ite(tc.FUn(OFIsNeg, x), x, y)
+	gen := tc.Ite(tc.FCmp(OFLt, x, y), x, y)
+	return tc.Ite(nan, tc.F64(math.NaN()), tc.Ite(bothZero, zeroPick, gen)), true
+}
+
+// gjson.fillIndex computes Result.Index as the offset of value.Raw inside json by pointer subtraction.
+// Engine strings are Go slices of byte terms, and substrings share the backing array, so the same offset
+// is recovered from the slice capacities.
+func inFillIndex(ex *Exec, fn *ssa.Function, args []Value) (Value, bool) {
+	json := args[0].(*StrV)
+	c := args[1].(PtrV).c
+	valueCell := cellField(c, "value")
+	calcd := ex.loadCell(cellField(c, "calcd")).(*Term)
+	rawCell := cellField(valueCell, "Raw")
+	idxCell := cellField(valueCell, "Index")
+	raw := ex.loadCell(rawCell).(*StrV)
+	if len(raw.b) == 0 || (calcd.op == OConst && calcd.cval != 0) {
+		return nil, true
+	}
+	idx := 0
+	if cap(json.b) > 0 && cap(raw.b) > 0 {
+		jb, rb := json.b[:cap(json.b)], raw.b[:cap(raw.b)]
+		if &jb[len(jb)-1] == &rb[len(rb)-1] {
+			idx = cap(json.b) - cap(raw.b)
+		}
+	}
+	if idx < 0 || idx >= len(json.b) {
+		idx = 0
+	}
+	ex.storeCell(idxCell, ex.intConst(idx))
+	return nil, true
+}
+
+func cellField(c *Cell, name string) *Cell {
+	st := c.typ.Underlying().(*types.Struct)
+	for i := 0; i < st.NumFields(); i++ {
+		if st.Field(i).Name() == name {
+			return c.kids[i]
+		}
+	}
+	panic("engine: no field " + name + " in " + c.typ.String())
+}
+
 func inSqrt(ex *Exec, fn *ssa.Function, args []Value) (Value, bool) {
 	return ex.tc.FUn(OFSqrt, args[0].(*Term)), true
 }
@@ -833,7 +900,80 @@ var intrinsicTable = map[string]intrinsicFn{
 	"(*sync.noCopy).Lock":                inNoop,
 }
 
-func init() { intrinsicTable["(*sync.Pool).Get"] = inPoolGet }
+func init() {
+	intrinsicTable["(*sync.Pool).Get"] = inPoolGet
+	intrinsicTable["math.Max"] = inFMax
+	intrinsicTable["math.Min"] = inFMin
+	intrinsicTable["math.Signbit"] = inSignbit
+	intrinsicTable["github.com/tidwall/gjson.fillIndex"] = inFillIndex
+	intrinsicTable["time.initLocal"] = inNoop
+	intrinsicTable["fmt.Fprintf"] = inFprintf
+	intrinsicTable["sort.Slice"] = inSortSlice
+	intrinsicTable["sort.SliceStable"] = inSortSlice
+	intrinsicTable["sort.Strings"] = inSortStrings
+}
+
+// sort.Slice / sort.SliceStable (reflection-based swapper in the real code): a stable insertion sort
+// that drives the caller's real less closure and swaps the slice elements in place.
+func inSortSlice(ex *Exec, fn *ssa.Function, args []Value) (Value, bool) {
+	iv, ok := args[0].(IfaceV)
+	if !ok || iv.t == nil {
+		ex.goPanic("sort.Slice: nil")
+	}
+	sl, ok := iv.v.(SliceV)
+	if !ok {
+		ex.inconclusive("sort.Slice on non-slice")
+	}
+	less := args[1].(FuncV)
+	ex.stubsSeen["sort.Slice/SliceStable as a stable insertion sort driving the real less closure"] = true
+	for i := 1; i < sl.len; i++ {
+		for j := i; j > 0; j-- {
+			r := ex.callValue(less, []Value{ex.intConst(j), ex.intConst(j - 1)}, nil).(*Term)
+			if !ex.branch(r) {
+				break
+			}
+			a, b := ex.kid(sl.arr, sl.off+j), ex.kid(sl.arr, sl.off+j-1)
+			va, vb := ex.loadCell(a), ex.loadCell(b)
+			ex.storeCell(a, vb)
+			ex.storeCell(b, va)
+		}
+	}
+	return nil, true
+}
+
+func inSortStrings(ex *Exec, fn *ssa.Function, args []Value) (Value, bool) {
+	sl := args[0].(SliceV)
+	for i := 1; i < sl.len; i++ {
+		for j := i; j > 0; j-- {
+			a, b := ex.kid(sl.arr, sl.off+j), ex.kid(sl.arr, sl.off+j-1)
+			va, vb := ex.loadCell(a).(*StrV), ex.loadCell(b).(*StrV)
+			if !ex.branch(ex.strLt(va, vb, false)) {
+				break
+			}
+			ex.storeCell(a, vb)
+			ex.storeCell(b, va)
+		}
+	}
+	return nil, true
+}
+
+// fmt.Fprintf: format natively (concrete operands) and hand the bytes to the writer's Write method.
+func inFprintf(ex *Exec, fn *ssa.Function, args []Value) (Value, bool) {
+	s, ok := ex.formatNative(args[1], args[2])
+	if !ok {
+		ex.inconclusive("fmt.Fprintf with symbolic operands")
+	}
+	w, ok := args[0].(IfaceV)
+	if !ok || w.t == nil {
+		ex.nilDeref()
+	}
+	wfn := ex.ld.prog.LookupMethod(w.t, nil, "Write")
+	if wfn == nil {
+		ex.inconclusive("fmt.Fprintf: writer without Write")
+	}
+	r := ex.call(wfn, []Value{w.v, ex.bytesToSlice(ex.strConst(s).b, nil)}, nil)
+	return r, true
+}
 
 // prefix-matched no-op families (logging, metrics)
 var noopPrefixes = []string{
